@@ -135,6 +135,7 @@ def validate_trace(name, lines, timeout=1800):
 def run_cases(name, cases, shards=None):
     for i, c in enumerate(cases):
         c.setdefault("id", "%s-%05d" % (name, i))
+        c.setdefault("debug", i % 3 == 1)      # the debug argument must be inert
     return vlib.run_harness("proto", cases, name, shards=shards)
 
 
